@@ -122,7 +122,7 @@ def seg_port(port, link):
         need(0 <= link < 256, 'link')
         if port < 15:
             return struct.pack('<BB', port, link)
-        return struct.pack('<BHB', 0x0F, port, link) + b'\x00'
+        return struct.pack('<BHB', 0x0F, port, link)
     lb = link.encode('ascii')
     if port < 15:
         out = struct.pack('<BB', 0x10 | port, len(lb)) + lb
